@@ -10,7 +10,7 @@ RULE = ('stratified random + boundary geographic positions (lat -80..84, lon -18
         'with |lon-CM|<=30deg; ellipsoids GRS80/WGS84/ANS/Intl24/random; projections UTM/ISG/random Projection; float '
         'and five angle classes; geo2grid and CoordGeo.tm) judged by the post-condition monitor against tm_exact '
         '(analytic continuation of the meridian arc); a case is non-trivial when it is inside the quantified domain; '
-        'distinct = distinct class buckets ellipsoid x projection x hemisphere x zone-mode x |dlon| bin x |lat| bin x '
+        '3 % of the cases are preceded by one or two calls the property does not speak about (latitude/longitude/zone outside the accepted ranges, NaN, strings, invalid hemisphere words): not judged, exceptions swallowed, the judged call after them must be as right as ever.  distinct = class buckets ellipsoid x projection x hemisphere x zone-mode x |dlon| bin x |lat| bin x '
         'argument type x api x side of CM')
 ASSUMPTIONS = ['tm_exact (vmon/oracles/tm.py) is the reference; it is re-validated in every shard against scipy '
                'quadrature of the meridian arc, numerical conformality, mpmath at 40 digits and the published '
@@ -19,7 +19,7 @@ ASSUMPTIONS = ['tm_exact (vmon/oracles/tm.py) is the reference; it is re-validat
 N = {'quick': 3000, 'thorough': 40000}     # cases per shard
 SHARDS = {'quick': 16, 'thorough': 32}
 ASPECTS = ('F',)
-REQUIRED_COUNTERS = ['across_antimeridian_cases', 'alias_sequences', 'branch:isg-auto-zone', 'branch:isg-central-meridian', 'branch:north-false-northing', 'branch:utm-auto-zone']
+REQUIRED_COUNTERS = ['unjudged_calls_before_a_judged_one', 'across_antimeridian_cases', 'alias_sequences', 'branch:isg-auto-zone', 'branch:isg-central-meridian', 'branch:north-false-northing', 'branch:utm-auto-zone']
 
 
 def plan(tier, seed):
@@ -41,6 +41,8 @@ def run_shard(spec, ctx):
             ctx.sample({'kind': '1x1 degree lattice x 3 zone modes', 'part': spec['lattice'], 'ell': spec['ell']})
         for i in range(spec['n']):
             case = tmwork.gen_geo_case(rnd)
+            if rnd.random() < 0.03:
+                case['before'] = tmwork.gen_unjudged_calls(rnd)
             if i < 2:
                 ctx.sample(case)
             tmwork.judge_forward(ns, ctx, case, ASPECTS)
